@@ -598,6 +598,8 @@ Proof. induction 1 as [|n n' ? ? [E _]]; simpl; congruence. Qed.
 Record lut_ok (L : lut) : Prop := {
   ok_ne : l_nodes L <> [];
   ok_x : Forall (fun n => 0 < nx n) (l_nodes L);
+  ok_d : Forall (fun n => 0 < nd n) (l_nodes L);   (* numpy: x / 0 is inf/nan,
+                                                      in Q it is 0 *)
   ok_cw : 0 < l_cw L;
   ok_fr : 0 < l_fr L;
   ok_visc : 0 < l_visc L
@@ -685,15 +687,17 @@ Section Routes.
         auto using (ok_cw L HL), (ok_fr L HL), (ok_visc L HL).
   Qed.
 
-  Theorem route_scalar_spec L S v evs :
+  (* the removed route (scale the LUT) is equivalent to the specification *)
+  Theorem route_scale_lut_spec L S v evs :
     lut_ok L -> setup_ok S ->
-    Forall2 oqeq (route_scalar L S v evs) (map (spec_emod L S v) evs).
+    Forall2 oqeq (route_scale_lut tri delta L S v evs)
+            (map (spec_emod L S v) evs).
   Proof.
     intros HL HSc. pose proof (scaled_normalized L S v HL HSc) as Hn.
     pose proof (lut_xmax_pos L HL) as Hxm.
     pose proof (xfactor_pos (l_feat L) (l_cw L) (s_cw S) (ok_cw L HL) HSc) as Hs.
     pose proof (lmax_rel _ _ _ Hs (scaled_nodes_nx L S v HL)) as Hm.
-    unfold C05.route_scalar. apply F2_map. intros ev _.
+    unfold C05.route_scale_lut. apply F2_map. intros ev _.
     rewrite spec_emod_unfold. rewrite scaled_nodes_nd.
     rewrite <- (F2_vrel_fst _ _ _ Hn).
     assert (Ex : normq (fst ev) (lmax (map nx (scaled_nodes L S v)))
@@ -710,15 +714,15 @@ Section Routes.
   Qed.
 
   (* ---- route 2: the data are scaled, the result is scaled back ------ *)
-  Lemma array_event_spec L S ev v :
+  Lemma data_event_spec arr L S ev v :
     lut_ok L -> setup_ok S ->
-    oqeq (array_event delta L S (lmax (map nx (l_nodes L)))
-                      (lmax (map nd (l_nodes L)))
-                      (normalize_nodes (l_nodes L))
-                      (tri (map fst (normalize_nodes (l_nodes L)))) ev v)
+    oqeq (data_event delta arr L S (lmax (map nx (l_nodes L)))
+                     (lmax (map nd (l_nodes L)))
+                     (normalize_nodes (l_nodes L))
+                     (tri (map fst (normalize_nodes (l_nodes L)))) ev v)
          (spec_emod L S v ev).
   Proof.
-    intros HL HSc. rewrite spec_emod_unfold. unfold array_event.
+    intros HL HSc. rewrite spec_emod_unfold. unfold data_event.
     assert (Ex : normq (scale_featx (l_feat L) (fst ev) (s_cw S) (l_cw L))
                        (lmax (map nx (l_nodes L)))
                  = normq (spec_x L S ev) (lmax (map nx (l_nodes L)))).
@@ -727,6 +731,34 @@ Section Routes.
     destruct (find_tri _ _ _) as [e|]; simpl; auto.
     apply scale_emod_eq; apply pos_neq0;
       auto using (ok_cw L HL), (ok_fr L HL), (ok_visc L HL).
+  Qed.
+
+  Lemma array_event_spec L S ev v :
+    lut_ok L -> setup_ok S ->
+    oqeq (array_event delta L S (lmax (map nx (l_nodes L)))
+                      (lmax (map nd (l_nodes L)))
+                      (normalize_nodes (l_nodes L))
+                      (tri (map fst (normalize_nodes (l_nodes L)))) ev v)
+         (spec_emod L S v ev).
+  Proof. apply data_event_spec. Qed.
+
+  (* global viscosity: every event is the specification *)
+  Theorem route_scalar_spec L S v evs :
+    lut_ok L -> setup_ok S ->
+    Forall2 oqeq (route_scalar L S v evs) (map (spec_emod L S v) evs).
+  Proof.
+    intros HL HS. unfold C05.route_scalar. apply F2_map. intros ev _.
+    now apply data_event_spec.
+  Qed.
+
+  (* scaling the LUT instead of the data (the route removed by the fix)
+     gives the same values *)
+  Theorem route_scale_lut_agrees L S v evs :
+    lut_ok L -> setup_ok S ->
+    Forall2 oqeq (route_scale_lut tri delta L S v evs) (route_scalar L S v evs).
+  Proof.
+    intros HL HS. eapply F2_trans; [apply route_scale_lut_spec; auto|].
+    apply F2_sym, route_scalar_spec; auto.
   Qed.
 
   Lemma map2_F2 {A B} (f g : A -> B -> option Q) l m :
@@ -1205,8 +1237,8 @@ Definition ex_events : list event :=
 
 Example ex_lut_ok : lut_ok ex_lut.
 Proof.
-  constructor; simpl; try discriminate; try reflexivity.
-  repeat constructor.
+  constructor; simpl; try discriminate; try reflexivity;
+    repeat constructor.
 Qed.
 
 Example ex_setup_ok : setup_ok ex_setup.
@@ -1542,3 +1574,143 @@ Example ex_array_laws :
   exists r, route_array ex_tri ex_delta ex_lut ex_setup [5; 6; 7] ex_events = Some r
             /\ exists e1 e2, r = [Some e1; Some e2; None].
 Proof. eexists. split; [reflexivity|]. vm_compute. eauto. Qed.
+
+(* ------------------------------------------------------------------ *)
+(* NaN exactly outside the SUPPORT (convex hull of the nodes), for a     *)
+(* triangulation oracle that covers the support                         *)
+(* ------------------------------------------------------------------ *)
+(* the convex hull of a planar point set is the union of the closed
+   triangles spanned by three of its points (Caratheodory) *)
+Definition in_support (p : pt) (nn : list nnode) : Prop :=
+  exists a b c, In a nn /\ In b nn /\ In c nn /\
+                inside p (fst a) (fst b) (fst c) = true.
+
+(* what is needed of the triangulation oracle: its triangles cover the
+   support.  (False for tri = []: the theorems below are not vacuous in the
+   oracle.)  Checked per run on the triangulations qhull returns (tiling of
+   the hull, check_triangulation). *)
+Definition tri_covers (nn : list nnode) (ts : list triangle) : Prop :=
+  forall p, in_support p nn -> exists t, In t ts /\ contains p nn t = true.
+
+Lemma contains_in_support p nn t :
+  contains p nn t = true -> in_support p nn.
+Proof.
+  unfold contains. destruct (tri_nodes nn t) as [[[a b] c]|] eqn:T; [|discriminate].
+  intros H. exists a, b, c.
+  destruct t as [[i j] k]. unfold tri_nodes, get in T.
+  destruct (nth_error nn (N.to_nat i)) eqn:Ei; [|discriminate].
+  destruct (nth_error nn (N.to_nat j)) eqn:Ej; [|discriminate].
+  destruct (nth_error nn (N.to_nat k)) eqn:Ek; [|discriminate].
+  inversion T; subst. repeat split; eauto using nth_error_In.
+Qed.
+
+Theorem find_tri_none_iff_outside_support p nn ts :
+  tri_covers nn ts ->
+  (find_tri p nn ts = None <-> ~ in_support p nn).
+Proof.
+  intros Hc. split.
+  - intros H Hs. destruct (Hc p Hs) as (t & Hin & Hct).
+    rewrite find_tri_none in H. rewrite (H t Hin) in Hct. discriminate.
+  - intros H. apply find_tri_none. intros t Hin.
+    destruct (contains p nn t) eqn:E; auto.
+    exfalso. apply H. eapply contains_in_support; eauto.
+Qed.
+
+Theorem nan_iff_outside_support :
+  forall (tri : list pt -> list triangle) (delta : feat -> Q -> Q -> Q)
+         (L : lut) (S : setup) (v : Q) (ev : event),
+    lut_ok L -> setup_ok S ->
+    tri_covers (spec_nn L) (spec_tris tri L) ->
+    (route_scalar tri delta L S v [ev] = [None]) <->
+    ~ in_support (spec_point delta L S ev) (spec_nn L).
+Proof.
+  intros tri delta L S v ev HL HS Hc.
+  rewrite (nan_iff_outside tri delta L S v ev HL HS).
+  rewrite <- find_tri_none. now apply find_tri_none_iff_outside_support.
+Qed.
+
+Theorem nan_iff_outside_support_array :
+  forall (tri : list pt -> list triangle) (delta : feat -> Q -> Q -> Q)
+         (L : lut) (S : setup) (v : Q) (ev : event),
+    lut_ok L -> setup_ok S ->
+    tri_covers (spec_nn L) (spec_tris tri L) ->
+    (route_array tri delta L S [v] [ev] = Some [None]) <->
+    ~ in_support (spec_point delta L S ev) (spec_nn L).
+Proof.
+  intros tri delta L S v ev HL HS Hc.
+  rewrite (nan_iff_outside_array tri delta L S v ev HL HS).
+  rewrite <- find_tri_none. now apply find_tri_none_iff_outside_support.
+Qed.
+
+(* inside does not depend on the order of the vertices *)
+Lemma inside_swap12 p a b c : inside p a b c = true -> inside p b a c = true.
+Proof.
+  rewrite !inside_spec. unfold w1, w2, w3. intros (Hd & H1 & H2 & H3).
+  assert (E : cross b a c == - cross a b c) by (unfold cross; ring).
+  assert (Hd' : ~ cross b a c == 0) by (rewrite E; lra).
+  repeat split; auto.
+  - assert (X : cross p a c / cross b a c == cross a p c / cross a b c).
+    { rewrite E. assert (Y : cross p a c == - cross a p c) by (unfold cross; ring).
+      rewrite Y. field; auto. }
+    now rewrite X.
+  - assert (X : cross b p c / cross b a c == cross p b c / cross a b c).
+    { rewrite E. assert (Y : cross b p c == - cross p b c) by (unfold cross; ring).
+      rewrite Y. field; auto. }
+    now rewrite X.
+  - assert (X : cross b a p / cross b a c == cross a b p / cross a b c).
+    { rewrite E. assert (Y : cross b a p == - cross a b p) by (unfold cross; ring).
+      rewrite Y. field; auto. }
+    now rewrite X.
+Qed.
+
+Lemma inside_swap23 p a b c : inside p a b c = true -> inside p a c b = true.
+Proof.
+  rewrite !inside_spec. unfold w1, w2, w3. intros (Hd & H1 & H2 & H3).
+  assert (E : cross a c b == - cross a b c) by (unfold cross; ring).
+  assert (Hd' : ~ cross a c b == 0) by (rewrite E; lra).
+  repeat split; auto.
+  - assert (X : cross p c b / cross a c b == cross p b c / cross a b c).
+    { rewrite E. assert (Y : cross p c b == - cross p b c) by (unfold cross; ring).
+      rewrite Y. field; auto. }
+    now rewrite X.
+  - assert (X : cross a p b / cross a c b == cross a b p / cross a b c).
+    { rewrite E. assert (Y : cross a p b == - cross a b p) by (unfold cross; ring).
+      rewrite Y. field; auto. }
+    now rewrite X.
+  - assert (X : cross a c p / cross a c b == cross a p c / cross a b c).
+    { rewrite E. assert (Y : cross a c p == - cross a p c) by (unfold cross; ring).
+      rewrite Y. field; auto. }
+    now rewrite X.
+Qed.
+
+Lemma inside_degenerate p a b c : cross a b c == 0 -> inside p a b c = false.
+Proof.
+  intros H. destruct (inside p a b c) eqn:E; auto.
+  apply inside_nondeg in E. contradiction.
+Qed.
+
+(* non-vacuity of tri_covers: a table of three nodes with its one triangle *)
+Definition ex_nn3 : list nnode :=
+  [ ((0, 0), 1); ((1, 0), 2); ((0, 1), 3) ].
+
+Example ex_tri_covers : tri_covers ex_nn3 [(0, 1, 2)%N].
+Proof.
+  intros p (a & b & c & Ha & Hb & Hc & Hin).
+  exists (0, 1, 2)%N. split; [now left|].
+  unfold contains. simpl.
+  assert (T : inside p (0, 0) (1, 0) (0, 1) = true).
+  { simpl in Ha, Hb, Hc.
+    destruct Ha as [<-|[<-|[<-|[]]]]; destruct Hb as [<-|[<-|[<-|[]]]];
+      destruct Hc as [<-|[<-|[<-|[]]]]; simpl in Hin;
+      try (rewrite inside_degenerate in Hin by (vm_compute; reflexivity);
+           discriminate);
+      auto using inside_swap12, inside_swap23. }
+  exact T.
+Qed.
+
+Example ex_not_covers : ~ tri_covers ex_nn3 [].
+Proof.
+  intros H. destruct (H (0, 0)) as (t & [] & _).
+  exists ((0, 0), 1), ((1, 0), 2), ((0, 1), 3). simpl.
+  split; [tauto|]. split; [tauto|]. split; [tauto|]. vm_compute. reflexivity.
+Qed.
